@@ -1167,7 +1167,7 @@ def run_c09(o, tier, rng, prep):
     grid = [-2 ** 127, -2 ** 64, -1000, -1, 0, 1, 50, 99, 100, 101, 102, 103, 104, 150, 1000, 59999, 300000,
             2 ** 31, 2 ** 53 - 1, 2 ** 53, 2 ** 53 + 1, 2 ** 64 + 12345, 2 ** 100 + 7, 2 ** 126 + 12345, 2 ** 127 - 1]
     incs = [-2 ** 127, -5, 0, 1, 7, 100, 10000, 2 ** 70, 2 ** 127 - 1]
-    mtgs = [None, 1, 2, 30, 40, 2 ** 32 - 1]
+    mtgs = [None, 0, 1, 2, 30, 40, 2 ** 32 - 1]      # 0: sent by some GUIs for sudden death; only the unconditional clauses are judged for it
     combos = []
     for c in grid:
         for i in incs:
@@ -1178,7 +1178,7 @@ def run_c09(o, tier, rng, prep):
         e = rng.choice([8, 16, 31, 53, 54, 64, 100, 126])
         c = rng.randrange(-2 ** 10, 2 ** e)
         i = rng.choice([0, 0, rng.randrange(-100, 2 ** rng.choice([8, 20, 60]))])
-        m = rng.choice([None, None, rng.randrange(1, 2 ** rng.choice([3, 6, 16, 32]))])
+        m = rng.choice([None, None, 0, rng.randrange(1, 2 ** rng.choice([3, 6, 16, 32]))])
         combos.append((c, i, m))
     if tier == "quick":
         rng.shuffle(combos)
@@ -1224,7 +1224,7 @@ def run_c09(o, tier, rng, prep):
         if sl > max(c, 0):
             ok = False
             o.violation("input", "planned time %d exceeds the mover's clock %d: %s" % (sl, c, r["case"]), {"case": r["case"], "slice": sl, "clock": c})
-        if c > 100:
+        if c > 100 and m != 0:
             ideal = Fraction(8, 10) * (c - 100) / mm_
             # whole milliseconds (+1/2) and four binary64 roundings (relative 2^-50 is generous)
             if Fraction(sl) > ideal + Fraction(1, 2) + ideal / 2 ** 50 + Fraction(c, 2 ** 50) or Fraction(sl) < ideal - Fraction(1, 2) - ideal / 2 ** 50 - Fraction(c, 2 ** 50):
@@ -1245,7 +1245,7 @@ def run_c09(o, tier, rng, prep):
             okd = False
             o.violation("input", "go answered after %.0f ms, plan was %d ms: %s" % (dt * 1000, plan, case), {"case": case, "ms": dt * 1000, "plan": plan})
     o.oblige("measured go->bestmove delay equals the plan up to overhead (%d timed searches on the real binary)" % len(bb), okd)
-    o.rule = "clock x increment x movestogo grid {-2^127..2^127-1 incl. 99..104, 2^53+-1} x {absent,1,2,30,40,2^32-1} x both colours plus random values, other side's fields randomised, an unknown token inserted in 20% of the commands; non-trivial = non-zero slice"
+    o.rule = "clock x increment x movestogo grid {-2^127..2^127-1 incl. 99..104, 2^53+-1} x {absent,0,1,2,30,40,2^32-1} x both colours plus random values, other side's fields randomised, an unknown token inserted in 20% of the commands; non-trivial = non-zero slice"
     o.assumptions.append("IEEE-754 binary64 conformance of the CPU for - * / and of the i128->f64 conversion")
     o.trusted.append("Flocq 4.1.0 (BinarySingleNaN) as the model of binary64 arithmetic")
 
